@@ -692,6 +692,215 @@ func (r *vgRun) streamBigRandom(rng *rand.Rand, count int) {
 	}
 }
 
+
+// ---- overlapping calls on one DependencyGraph --------------------------------------------------------------
+// The graph is documented as safe for concurrent use (its own mutex). One goroutine keeps asking (DetectCycles,
+// IsAcyclic, TopologicalSort, Size) while another performs ONE mutation of a long chain. Every answer given during
+// the overlap must be right for the graph before or after that mutation; every answer on the quiescent graph
+// afterwards must be right for the graph after it (reference digraph). Not replayed by the model (no op lines): the
+// model's theorems are about the sequential semantics these answers must linearise to.
+
+type vcKey int
+
+func vcNode(i int) NodeKey { return NodeKey{Type: reflect.TypeOf(vgT3{}), Key: vcKey(i)} }
+func vcProv(id, n int, deps []int) *vgProv {
+	p := &vgProv{id: id, key: vcNode(n)}
+	for _, d := range deps {
+		k := vcNode(d)
+		p.deps = append(p.deps, &reflection.Dependency{Type: k.Type, Key: k.Key})
+	}
+	return p
+}
+func vcIdx(k NodeKey) int {
+	if v, ok := k.Key.(vcKey); ok {
+		return int(v)
+	}
+	return -1
+}
+
+// validOrder: order is a permutation of ref's nodes with every dependency earlier
+func vcValidOrder(ref *vgRef, order []*Node) string {
+	pos := map[int]int{}
+	for i, nd := range order {
+		pos[vcIdx(nd.Key)] = i
+	}
+	if len(pos) != len(ref.nodes) || len(order) != len(ref.nodes) {
+		return fmt.Sprintf("%d entries (%d distinct) for %d nodes", len(order), len(pos), len(ref.nodes))
+	}
+	for n := range ref.nodes {
+		if _, ok := pos[n]; !ok {
+			return fmt.Sprintf("node %d missing", n)
+		}
+	}
+	for u, ds := range ref.edges {
+		for _, d := range ds {
+			if pos[d] >= pos[u] {
+				return fmt.Sprintf("dependency %d not before %d", d, u)
+			}
+		}
+	}
+	return ""
+}
+
+type vcAnswer struct {
+	what string
+	err  bool
+	ord  []*Node
+	n    int
+}
+
+func (r *vgRun) streamOverlap(rng *rand.Rand, rounds int) {
+	for it := 0; it < rounds; it++ {
+		n := 200 + rng.Intn(400)
+		g := NewDependencyGraph()
+		before := newRef()
+		id := 0
+		for i := 0; i < n; i++ { // chain: i depends on i+1
+			var deps []int
+			if i+1 < n {
+				deps = []int{i + 1}
+			}
+			id++
+			g.AddProviderDeferred(vcProv(id, i, deps))
+			before.add(i, deps)
+		}
+		if (it/4)%2 == 0 { // half of the rounds start from a validated graph (caches filled)
+			g.DetectCycles()
+			g.TopologicalSort()
+		}
+		after := before.clone()
+		kind := it % 4
+		var mutate func()
+		var desc string
+		switch kind {
+		case 0: // deferred add that closes the ring
+			desc = fmt.Sprintf("AddProviderDeferred(%d -> 0) closing a ring of %d", n-1, n)
+			after.add(n-1, []int{0})
+			id++
+			p := vcProv(id, n-1, []int{0})
+			mutate = func() { g.AddProviderDeferred(p) }
+		case 1: // immediate add of a new node on top of the chain
+			desc = fmt.Sprintf("AddProvider(new node %d -> 0)", n)
+			after.add(n, []int{0})
+			id++
+			p := vcProv(id, n, []int{0})
+			mutate = func() { g.AddProvider(p) }
+		case 2: // removal in the middle
+			desc = fmt.Sprintf("RemoveProvider(%d)", n/2)
+			after.remove(n / 2)
+			k := vcNode(n / 2)
+			mutate = func() { g.RemoveProvider(k.Type, k.Key, k.Group) }
+		default: // deferred add of a new leaf consumer
+			desc = fmt.Sprintf("AddProviderDeferred(new node %d -> %d)", n, n-1)
+			after.add(n, []int{n - 1})
+			id++
+			p := vcProv(id, n, []int{n - 1})
+			mutate = func() { g.AddProviderDeferred(p) }
+		}
+		stop := make(chan struct{})
+		done := make(chan []vcAnswer, 1)
+		started := make(chan struct{})
+		go func() {
+			var as []vcAnswer
+			close(started)
+			for i := 0; ; i++ {
+				select {
+				case <-stop:
+					done <- as
+					return
+				default:
+				}
+				switch i % 4 {
+				case 0:
+					as = append(as, vcAnswer{what: "DetectCycles", err: g.DetectCycles() != nil})
+				case 1:
+					o, err := g.TopologicalSort()
+					as = append(as, vcAnswer{what: "TopologicalSort", err: err != nil, ord: o})
+				case 2:
+					as = append(as, vcAnswer{what: "IsAcyclic", err: !g.IsAcyclic()})
+				default:
+					as = append(as, vcAnswer{what: "Size", n: g.Size()})
+				}
+				if len(as) > 4000 {
+					as = as[len(as)-2000:]
+				}
+			}
+		}()
+		<-started
+		for spin := rng.Intn(60000); spin > 0; spin-- {
+			_ = spin * spin
+		}
+		mutate()
+		for spin := rng.Intn(2000); spin > 0; spin-- {
+			_ = spin * spin
+		}
+		close(stop)
+		answers := <-done
+		r.scen++
+		r.cur = []string{fmt.Sprintf("# overlap round %d: chain of %d nodes, %s while another goroutine asks", it, n, desc)}
+		bc, ac := before.hasCycle(), after.hasCycle()
+		for _, a := range answers {
+			switch a.what {
+			case "DetectCycles", "IsAcyclic":
+				if a.err != bc && a.err != ac {
+					r.fail("C05,C09,C19", fmt.Sprintf("%s during the overlap said cyclic=%v; the graph is cyclic=%v before and cyclic=%v after the mutation", a.what, a.err, bc, ac))
+				}
+			case "TopologicalSort":
+				if kind == 0 || kind == 3 {
+					// contract of AddProviderDeferred: "call DetectCycles() after all providers are added" - a sort
+					// between the deferred add and the next DetectCycles is outside it (degrees not recomputed yet)
+					continue
+				}
+				if a.err {
+					if !bc && !ac {
+						r.fail("C05,C06,C09", "TopologicalSort during the overlap failed although the graph is acyclic before and after the mutation")
+					}
+				} else if w1, w2 := vcValidOrder(before, a.ord), vcValidOrder(after, a.ord); (bc || w1 != "") && (ac || w2 != "") {
+					r.fail("C06,C09,C19", fmt.Sprintf("TopologicalSort during the overlap returned an order valid neither before (%s) nor after (%s) the mutation", w1, w2))
+				}
+			case "Size":
+				if a.n != len(before.nodes) && a.n != len(after.nodes) {
+					r.fail("C09,C19", fmt.Sprintf("Size during the overlap = %d; %d before, %d after", a.n, len(before.nodes), len(after.nodes)))
+				}
+			}
+		}
+		// quiescent: twice (the second answers come from the caches the overlap may have left behind)
+		for rep := 0; rep < 2; rep++ {
+			if got := g.DetectCycles() != nil; got != ac {
+				r.fail("C05,C09,C19", fmt.Sprintf("after the overlap (query %d) DetectCycles says cyclic=%v, the graph is cyclic=%v", rep, got, ac))
+			}
+			if got := !g.IsAcyclic(); got != ac {
+				r.fail("C05,C09,C19", fmt.Sprintf("after the overlap (query %d) IsAcyclic says cyclic=%v, the graph is cyclic=%v", rep, got, ac))
+			}
+			o, err := g.TopologicalSort()
+			if (err != nil) != ac {
+				r.fail("C05,C06,C09", fmt.Sprintf("after the overlap (query %d) TopologicalSort err=%v, the graph is cyclic=%v", rep, err != nil, ac))
+			} else if err == nil {
+				if w := vcValidOrder(after, o); w != "" {
+					r.fail("C06,C09,C19", fmt.Sprintf("after the overlap (query %d) TopologicalSort returned an invalid order: %s", rep, w))
+				}
+			}
+			if g.Size() != len(after.nodes) {
+				r.fail("C09,C19", fmt.Sprintf("after the overlap Size = %d, reference %d", g.Size(), len(after.nodes)))
+			}
+		}
+		tr := keys2(g.GetTransitiveDependencies(vcNode(0).Type, vcNode(0).Key, ""))
+		if want := sortedInts(after.trans(0)); !eqInts(sortedInts(tr), want) {
+			r.fail("C19,C09", fmt.Sprintf("after the overlap GetTransitiveDependencies(0) has %d entries, reference %d", len(tr), len(want)))
+		}
+		r.stats["overlap_rounds"]++
+		r.stats["overlap_answers"] += len(answers)
+	}
+}
+
+func keys2(ks []NodeKey) []int {
+	var out []int
+	for _, k := range ks {
+		out = append(out, vcIdx(k))
+	}
+	return out
+}
+
 func envInt(name string, def int) int {
 	if v := os.Getenv(name); v != "" {
 		if n, err := strconv.Atoi(v); err == nil {
@@ -730,6 +939,7 @@ func TestVerifGraph(t *testing.T) {
 		}
 		r.streamRandom(rng, envInt("VERIF_RANDOM", 300))
 		r.streamBigRandom(rng, envInt("VERIF_BIGRANDOM", 300))
+		r.streamOverlap(rng, envInt("VERIF_OVERLAP", 48))
 	}
 	wo.Flush()
 	wb.Flush()
